@@ -253,6 +253,7 @@ func passK(repo string, cfg *vc.SolverConfig, only string) (*vc.PassResult, erro
 		x := vc.NewExec(ctx, lr.Prog, sink)
 		x.RegisterStdModels()
 		x.RegisterMapSpecFuncs()
+		x.RegisterTypeMapModels()
 		configureK(x)
 		all := vc.BindSpecs(x, lr, pc.pkg, cf, res)
 		filterBound(all, only)
